@@ -69,6 +69,50 @@ type Script struct {
 	HdrLate []KV `json:"hdr_late,omitempty"` // SetHeader after the first reply (no delivery obligation)
 	Trl     []KV `json:"trl,omitempty"`      // SetTrailer before the first reply
 	TrlLate []KV `json:"trl_late,omitempty"` // SetTrailer after the first reply
+	// Pre is a metadata call made right before the status is returned, i.e.
+	// after the replies (C05): "" | "set" | "send" | "trl", with fixed metadata.
+	Pre string `json:"pre,omitempty"`
+	// Mutate tells the handler to keep using the metadata.MD object it passed
+	// to Set*/Send* after the call (C14): "" | "overwrite" (values changed in
+	// place) | "replace" (value slices replaced) | "add" (scratch keys added) |
+	// "delete" (all keys deleted) | "reuse" (the header MD object is emptied,
+	// refilled and passed to SetTrailer). The client must see the metadata as
+	// it was at the time of each call.
+	Mutate string `json:"mutate,omitempty"`
+}
+
+// scratch keys a mutating handler adds to its MD after the call
+const (
+	scratchKey    = "x-scratch-after-call"
+	scratchBinKey = "x-scratch-after-call-bin"
+)
+
+func preMD() metadata.MD {
+	return metadata.MD{"x-c05-pre": {"v1", "v 2"}, "x-c05-pre-bin": {"\x00\xff\xfb%"}}
+}
+
+// mutateMD is what a handler does to its own MD object after having passed it
+// to SetHeader / SendHeader / SetTrailer.
+func mutateMD(md metadata.MD, kind string) {
+	switch kind {
+	case "overwrite":
+		for _, vs := range md {
+			for i := range vs {
+				vs[i] = "mutated-after-call"
+			}
+		}
+	case "replace":
+		for k := range md {
+			md[k] = []string{"replaced-after-call", "\x01\x02"}
+		}
+	case "add":
+		md[scratchKey] = []string{"leak"}
+		md[scratchBinKey] = []string{"\x00leak\xff"}
+	case "delete":
+		for k := range md {
+			delete(md, k)
+		}
+	}
 }
 
 // Rec is what the handler observed / did.
@@ -299,15 +343,42 @@ func (e *Env) headerOps(id string, sc *Script, set, send func(metadata.MD) error
 			e.record(id, func(r *Rec) { r.OpErrs = append(r.OpErrs, op+": "+err.Error()) })
 		}
 	}
+	var hmd metadata.MD
 	if len(sc.Hdr) > 0 {
+		hmd = toMD(sc.Hdr)
 		if sc.SendHdr {
-			noteErr("SendHeader", send(toMD(sc.Hdr)))
+			noteErr("SendHeader", send(hmd))
 		} else {
-			noteErr("SetHeader", set(toMD(sc.Hdr)))
+			noteErr("SetHeader", set(hmd))
 		}
+		mutateMD(hmd, sc.Mutate)
 	}
 	if len(sc.Trl) > 0 {
-		noteErr("SetTrailer", trl(toMD(sc.Trl)))
+		tmd := toMD(sc.Trl)
+		if sc.Mutate == "reuse" && hmd != nil {
+			// the same MD object serves for the trailer with other contents
+			for k := range hmd {
+				delete(hmd, k)
+			}
+			for k, v := range tmd {
+				hmd[k] = v
+			}
+			tmd = hmd
+		}
+		noteErr("SetTrailer", trl(tmd))
+		mutateMD(tmd, sc.Mutate)
+	}
+}
+
+// preOp is the metadata call a C05 handler makes right before it returns.
+func preOp(sc *Script, set, send, trl func(metadata.MD) error) {
+	switch sc.Pre {
+	case "set":
+		set(preMD()) //nolint
+	case "send":
+		send(preMD()) //nolint
+	case "trl":
+		trl(preMD()) //nolint
 	}
 }
 
@@ -333,6 +404,10 @@ func (e *Env) unary(ctx context.Context, md protoreflect.MethodDescriptor, in pr
 	if sc.WaitCtx {
 		waitCtx(ctx)
 	}
+	preOp(sc,
+		func(m metadata.MD) error { return grpc.SetHeader(ctx, m) },
+		func(m metadata.MD) error { return grpc.SendHeader(ctx, m) },
+		func(m metadata.MD) error { return grpc.SetTrailer(ctx, m) })
 	if sc.Code != 0 {
 		return nil, statusOf(sc).Err()
 	}
@@ -361,18 +436,24 @@ func (e *Env) stream(md protoreflect.MethodDescriptor, ss grpc.ServerStream) err
 		e.record(id, func(r *Rec) { r.Sent++ })
 		if i == 0 {
 			if len(sc.HdrLate) > 0 {
-				if err := ss.SetHeader(toMD(sc.HdrLate)); err != nil {
+				lmd := toMD(sc.HdrLate)
+				err := ss.SetHeader(lmd)
+				mutateMD(lmd, sc.Mutate)
+				if err != nil {
 					e.record(id, func(r *Rec) { r.OpErrs = append(r.OpErrs, "late SetHeader: "+err.Error()) })
 				}
 			}
 			if len(sc.TrlLate) > 0 {
-				ss.SetTrailer(toMD(sc.TrlLate))
+				lmd := toMD(sc.TrlLate)
+				ss.SetTrailer(lmd)
+				mutateMD(lmd, sc.Mutate)
 			}
 		}
 	}
 	if sc.WaitCtx {
 		waitCtx(ss.Context())
 	}
+	preOp(sc, ss.SetHeader, ss.SendHeader, func(m metadata.MD) error { ss.SetTrailer(m); return nil })
 	if sc.Code != 0 {
 		return statusOf(sc).Err()
 	}
